@@ -24,6 +24,9 @@ type Case struct {
 	Doc       Doc    `json:"doc"`
 	Keep      Keep   `json:"keep"`
 	KeepTags  bool   `json:"keep_tags"`
+	// ReadFirst: the state of the reader when it is handed over. 0: at the start; 1: read to the end before (as after
+	// CountTags or a checksum pass over the same reader); 2: a third of the way in
+	ReadFirst int `json:"read_first,omitempty"`
 	IDKind    string `json:"id_kind,omitempty"` // ids mapped to negative or huge values (documentation of the generator's choice)
 	Engine    string `json:"engine"`            // sched (owned scheduler) | plain (no hook, repeated) | filter
 	Procs     int    `json:"procs"`
@@ -274,6 +277,7 @@ func gen(t *rapid.T) Case {
 	c.Doc, c.OrderKind = genDoc(t)
 	c.Keep = genKeep(t, true)
 	c.KeepTags = rapid.Bool().Draw(t, "keeptags")
+	c.ReadFirst = rapid.SampledFrom([]int{0, 0, 0, 0, 1, 2}).Draw(t, "readfirst")
 	c.Engine = rapid.SampledFrom([]string{"sched", "sched", "sched", "sched", "sched", "sched", "plain", "plain", "filter", "filter", "stress"}).Draw(t, "engine")
 	c.Procs = rapid.SampledFrom([]int{1, 2, 3, 4, 8}).Draw(t, "procs")
 	switch c.Engine {
@@ -383,7 +387,19 @@ var goroutineHeader = regexp.MustCompile(`(?m)^goroutine (\d+) \[([^\]]*)\]:$`)
 // send and no goroutine created by it (the workers of the pool) exists any more, nothing can ever receive and the call
 // cannot return; that state is permanent and read from one stop-the-world snapshot, so looking at it late or early
 // gives the same answer. Until then the wait goes on (a slow run is not a violation).
-func extractWatched(xml []byte, keep gosm.KeepFunc, keepTags, pbf bool) (data *gosm.Data, err error) {
+// usedReader returns a reader over doc in the state the case asks for.
+func usedReader(doc []byte, readFirst int) *bytes.Reader {
+	r := bytes.NewReader(doc)
+	switch readFirst {
+	case 1:
+		r.Seek(0, 2)
+	case 2:
+		r.Seek(int64(len(doc)/3), 0)
+	}
+	return r
+}
+
+func extractWatched(xml []byte, keep gosm.KeepFunc, keepTags, pbf bool, readFirst int) (data *gosm.Data, err error) {
 	done := make(chan struct{})
 	idc := make(chan string, 1)
 	var pan interface{}
@@ -398,10 +414,10 @@ func extractWatched(xml []byte, keep gosm.KeepFunc, keepTags, pbf bool) (data *g
 		}
 		idc <- id
 		if pbf {
-			data, err = gosm.ExtractPBF(context.Background(), bytes.NewReader(xml), keep, keepTags)
+			data, err = gosm.ExtractPBF(context.Background(), usedReader(xml, readFirst), keep, keepTags)
 			return
 		}
-		data, err = gosm.ExtractXML(context.Background(), bytes.NewReader(xml), keep, keepTags)
+		data, err = gosm.ExtractXML(context.Background(), usedReader(xml, readFirst), keep, keepTags)
 	}()
 	id := <-idc
 	tick := 200 * time.Millisecond
@@ -447,7 +463,7 @@ func extractWith(c Case, xml []byte) (data *gosm.Data, ctl *controller, err erro
 	keep := c.Keep.Func()
 	if c.Engine != "sched" {
 		gosm.VerifHook = nil
-		data, err = extractWatched(xml, keep, c.KeepTags, c.Format == "pbf")
+		data, err = extractWatched(xml, keep, c.KeepTags, c.Format == "pbf", c.ReadFirst)
 		return
 	}
 	ctl = &controller{events: make(chan *park), nprocs: c.Procs, choices: c.Choices, policy: c.Policy}
@@ -459,9 +475,9 @@ func extractWith(c Case, xml []byte) (data *gosm.Data, ctl *controller, err erro
 		defer close(done)
 		defer func() { pan = recover() }()
 		if c.Format == "pbf" {
-			data, err = gosm.ExtractPBF(context.Background(), bytes.NewReader(xml), ctl.wrapKeep(keep), c.KeepTags)
+			data, err = gosm.ExtractPBF(context.Background(), usedReader(xml, c.ReadFirst), ctl.wrapKeep(keep), c.KeepTags)
 		} else {
-			data, err = gosm.ExtractXML(context.Background(), bytes.NewReader(xml), ctl.wrapKeep(keep), c.KeepTags)
+			data, err = gosm.ExtractXML(context.Background(), usedReader(xml, c.ReadFirst), ctl.wrapKeep(keep), c.KeepTags)
 		}
 	}()
 	if e := ctl.run(done); e != nil {
